@@ -30,8 +30,10 @@ def _val_ok(v: str) -> bool:
     if v == "":
         return False
     for i, ch in enumerate(v):
-        if ch in "&=+%#;?:" or ch.isspace():
+        if ch in "&=+%#;?" or ch.isspace():
             return False
+        if ch == ":" and ENTRY != "plain":
+            return False       # after a uri's type prefix a ':' is text; in front of it, it would be the type separator
         if ch == "~" and i > 0 and v[0] == "~":
             return False       # '~' inside an optional ('~'-prefixed) value: outside the statement
     return True
@@ -40,6 +42,8 @@ def _val_ok(v: str) -> bool:
 def _apply(base, q: str):
     if ENTRY == "string":
         return Sid(base.uri + "?" + q)
+    if ENTRY == "plain":
+        return Sid(base.string + "?" + q)       # BASE is a plain, naturally typed string: the query is split off before any ':' is looked at
     return base.get_with(query=q)
 
 
